@@ -29,8 +29,13 @@ const (
 	vc13HangBody  vc13Kind = "hang_body"
 	vc13S404      vc13Kind = "s404"
 	vc13S500      vc13Kind = "s500"
-	vc13Empty     vc13Kind = "empty"
-	vc13Oversize  vc13Kind = "oversize"
+
+	// vc13Status is an answer with a status other than 200, see
+	// vc13StatusCodes, and a body that is junk, a valid other version, or
+	// empty.
+	vc13Status   vc13Kind = "status"
+	vc13Empty    vc13Kind = "empty"
+	vc13Oversize vc13Kind = "oversize"
 
 	// vc13OversizeChunked and vc13OversizeClose are complete bodies over the
 	// size limit that do not announce their length: chunked transfer coding,
@@ -48,6 +53,7 @@ var vc13FaultKinds = []vc13Kind{
 	vc13HangBody,
 	vc13S404,
 	vc13S500,
+	vc13Status,
 	vc13Empty,
 	vc13Oversize,
 	vc13OversizeChunked,
@@ -58,6 +64,15 @@ var vc13FaultKinds = []vc13Kind{
 
 // vc13IsOK reports whether k delivers a complete body with status 200.
 func vc13IsOK(k vc13Kind) (ok bool) { return k == vc13OKNew || k == vc13OKSame }
+
+// vc13StatusCodes are the non-200 statuses that net/http hands to its caller
+// as a response: the success class, the redirect class without anything the
+// client would follow (300, 304, and 305 and 306, which it does not follow),
+// client and server errors.
+var vc13StatusCodes = []int{201, 202, 203, 206, 226, 300, 304, 305, 306, 400, 403, 404, 429, 500, 502, 503}
+
+// vc13StatusBodies are the forms of the body of such an answer.
+var vc13StatusBodies = []string{"junk", "valid", "empty"}
 
 // vc13IsOversize reports whether k is a complete body over the size limit.
 func vc13IsOversize(k vc13Kind) (ok bool) {
@@ -78,6 +93,9 @@ type vc13Resp struct {
 	// chunks and delay make complete bodies dribble (crash-point part).
 	chunks int
 	delay  time.Duration
+
+	// code is the status of a vc13Status response.
+	code int
 
 	// form is how a complete body is delimited: "" (Content-Length),
 	// "chunked" or "close" (HTTP/1.0-style, end of the connection).
@@ -383,6 +401,18 @@ func (s *vc13Server) ServeHTTP(w http.ResponseWriter, r *http.Request) {
 	}
 
 	switch resp.kind {
+	case vc13Status:
+		// No Location header, whatever the class.
+		w.Header().Set("Content-Type", "text/plain")
+		if resp.code == http.StatusPartialContent && len(resp.body) > 0 {
+			w.Header().Set("Content-Range", fmt.Sprintf("bytes 0-%d/%d", len(resp.body)-1, len(resp.body)+100))
+		}
+
+		w.WriteHeader(resp.code)
+		if len(resp.body) > 0 {
+			// For 304 the server refuses a body; that is fine.
+			_, _ = w.Write(resp.body)
+		}
 	case vc13S404:
 		w.WriteHeader(http.StatusNotFound)
 		_, _ = w.Write(resp.body)
